@@ -11,6 +11,53 @@ use std::collections::VecDeque;
 use linfa::Float;
 use linfa::{traits::Transformer, DatasetBase};
 
+/// Verification hook (only with `--cfg linfa_verif`): one `dbscan.step` event per step of the
+/// seed loop / search queue of `transform` (outer scan skips or seeds point `i`, a candidate `j`
+/// is popped from the search queue and labelled, the points it pushed, a cluster is closed).
+#[cfg(linfa_verif)]
+mod verif {
+    pub(super) fn on() -> bool {
+        linfa::verif_hook::enabled()
+    }
+    fn list(v: &[usize]) -> String {
+        v.iter()
+            .map(|x| x.to_string())
+            .collect::<Vec<_>>()
+            .join(",")
+    }
+    /// outer scan: point `i` is not a seed (`why` = "labelled" | "noncore"; `cnt` = neighbour count, -1 if not counted)
+    pub(super) fn skip(i: usize, why: &str, cnt: i64) {
+        linfa::verif_hook::emit(&format!(
+            "\"ev\":\"dbscan.step\",\"op\":\"skip\",\"i\":{},\"why\":\"{}\",\"cnt\":{}",
+            i, why, cnt
+        ));
+    }
+    /// point `i` (seed of cluster `cid`) or candidate `j` popped from the queue: neighbour count, label written,
+    /// the points newly pushed on the search queue
+    pub(super) fn grow(op: &str, i: usize, cid: usize, cnt: usize, push: &[usize]) {
+        linfa::verif_hook::emit(&format!(
+            "\"ev\":\"dbscan.step\",\"op\":\"{}\",\"i\":{},\"cid\":{},\"cnt\":{},\"push\":[{}]",
+            op,
+            i,
+            cid,
+            cnt,
+            list(push)
+        ));
+    }
+    pub(super) fn close(cid: usize) {
+        linfa::verif_hook::emit(&format!(
+            "\"ev\":\"dbscan.step\",\"op\":\"close\",\"cid\":{}",
+            cid
+        ));
+    }
+    pub(super) fn end(n: usize) {
+        linfa::verif_hook::emit(&format!(
+            "\"ev\":\"dbscan.step\",\"op\":\"end\",\"n\":{}",
+            n
+        ));
+    }
+}
+
 #[derive(Clone, Debug, PartialEq, Eq)]
 #[cfg_attr(
     feature = "serde",
@@ -123,18 +170,43 @@ impl<F: Float, D: Data<Elem = F>, DF: Distance<F>, N: NearestNeighbour>
 
         for i in 0..observations.nrows() {
             if cluster_memberships[i].is_some() {
+                #[cfg(linfa_verif)]
+                if verif::on() {
+                    verif::skip(i, "labelled", -1);
+                }
                 continue;
             }
             let (neighbor_count, neighbors) =
                 self.find_neighbors(&*nn, i, observations, self.tolerance, &cluster_memberships);
             if neighbor_count < self.min_points {
+                #[cfg(linfa_verif)]
+                if verif::on() {
+                    verif::skip(i, "noncore", neighbor_count as i64);
+                }
                 continue;
             }
             neighbors.iter().for_each(|&n| search_found[n] = true);
+            #[cfg(linfa_verif)]
+            let queue_len_before = search_queue.len();
             search_queue.extend(neighbors.into_iter());
 
             // Now go over the neighbours adding them to the cluster
             cluster_memberships[i] = Some(current_cluster_id);
+            #[cfg(linfa_verif)]
+            if verif::on() {
+                let pushed: Vec<usize> = search_queue
+                    .iter()
+                    .skip(queue_len_before)
+                    .copied()
+                    .collect();
+                verif::grow(
+                    "seed",
+                    i,
+                    cluster_memberships[i].unwrap_or(usize::MAX),
+                    neighbor_count,
+                    &pushed,
+                );
+            }
 
             while let Some(candidate_idx) = search_queue.pop_front() {
                 search_found[candidate_idx] = false;
@@ -148,6 +220,8 @@ impl<F: Float, D: Data<Elem = F>, DF: Distance<F>, N: NearestNeighbour>
                 );
                 // Make the candidate a part of the cluster even if it's not a core point
                 cluster_memberships[candidate_idx] = Some(current_cluster_id);
+                #[cfg(linfa_verif)]
+                let queue_len_before = search_queue.len();
                 if neighbor_count >= self.min_points {
                     for n in neighbors.into_iter() {
                         if !search_found[n] {
@@ -156,8 +230,31 @@ impl<F: Float, D: Data<Elem = F>, DF: Distance<F>, N: NearestNeighbour>
                         }
                     }
                 }
+                #[cfg(linfa_verif)]
+                if verif::on() {
+                    let pushed: Vec<usize> = search_queue
+                        .iter()
+                        .skip(queue_len_before)
+                        .copied()
+                        .collect();
+                    verif::grow(
+                        "pop",
+                        candidate_idx,
+                        cluster_memberships[candidate_idx].unwrap_or(usize::MAX),
+                        neighbor_count,
+                        &pushed,
+                    );
+                }
+            }
+            #[cfg(linfa_verif)]
+            if verif::on() {
+                verif::close(current_cluster_id);
             }
             current_cluster_id += 1;
+        }
+        #[cfg(linfa_verif)]
+        if verif::on() {
+            verif::end(observations.nrows());
         }
         cluster_memberships
     }
